@@ -41,6 +41,8 @@ macro_rules! impl_vec1 {
                 where
                     T: 'a,
                 { unsafe {
+                    #[cfg(feature = "verif-hooks")]
+                    crate::verif_hooks::check_range(start, end, self.len(), "vec.uslice");
                     Ok(self.get_unchecked(start..end))
                 }}
 
@@ -51,6 +53,8 @@ macro_rules! impl_vec1 {
 
                 #[inline]
                 unsafe fn uget(&self, index: usize) -> T { unsafe {
+                    #[cfg(feature = "verif-hooks")]
+                    crate::verif_hooks::check_idx(index, self.len(), "vec.uget");
                     self.get_unchecked(index).clone()
                 }}
 
@@ -261,6 +265,8 @@ impl<T: Clone> Vec1<T> for Vec<T> {
     fn uninit(len: usize) -> Self::Uninit {
         let mut v = Vec::with_capacity(len);
         unsafe {
+            #[cfg(feature = "verif-hooks")]
+            crate::verif_hooks::poison(v.as_mut_ptr(), len);
             v.set_len(len);
         }
         v
@@ -300,6 +306,8 @@ impl<T: Clone> UninitVec<T> for Vec<MaybeUninit<T>> {
     #[inline]
     unsafe fn uset(&mut self, idx: usize, v: T) {
         unsafe {
+            #[cfg(feature = "verif-hooks")]
+            crate::verif_hooks::check_idx(idx, self.len(), "vec.uset");
             let ele = self.get_unchecked_mut(idx);
             ele.write(v);
         }
@@ -310,6 +318,8 @@ impl<T> UninitRefMut<T> for &mut [MaybeUninit<T>] {
     #[inline]
     unsafe fn uset(&mut self, idx: usize, v: T) {
         unsafe {
+            #[cfg(feature = "verif-hooks")]
+            crate::verif_hooks::check_idx(idx, self.len(), "vec.uset");
             let ele = self.get_unchecked_mut(idx);
             ele.write(v);
         }
